@@ -240,6 +240,32 @@ func exec(c Case) (v ev.Verdict) {
 				failed = true
 			}
 		}
+		if failed && !c.Forced {
+			// the same on ONE loaded project (the REPL's run()): the run fails, the cause is removed, the same
+			// Project runs again - the failed target must execute and the outputs must converge
+			if sp, err := base.CloneFull(); err == nil {
+				sp.SetFail(m.Targets[ft].Name(), true)
+				r2 := sp.Build(projsim.BuildReq{Label: label, Steps: []projsim.Step{{Kind: "unfail"}, {Kind: "run"}}})
+				sp.ClearFails()
+				w2 := where + ", then the same loaded project runs again after the cause is removed"
+				var f *ev.Verdict
+				switch {
+				case r2.Panic != "":
+					fv := ev.Failf("panic", "%s: panic %s", w2, r2.Panic)
+					f = &fv
+				case len(r2.Steps) == 2 && r2.Steps[1].Err != "":
+					fv := ev.Failf("same-project-rerun-fails", "%s: the second run fails: %s", w2, r2.Steps[1].Err)
+					f = &fv
+				case r2.RunErr != "":
+					f = checkBytes(sp, id, w2)
+				}
+				sp.Close()
+				v.Classes = append(v.Classes, "body-failure-same-project")
+				if f != nil {
+					return *f
+				}
+			}
+		}
 		if failed {
 			v.Classes = append(v.Classes, "body-failure")
 			if len(m.Dependents(ft)) > 1 {
